@@ -603,7 +603,10 @@ func oracleC03(c *DCase) (*ev.Failure, int) {
 var c03Alphabet = []byte{0x00, 0x01, 0x02, 0x05, 0x08, 0x0a, 0x0d, 0x09, 0x7f, 0x80, 0x81, 0xff}
 
 // hostile length prefixes
-var hostileLens = []uint64{1<<31 - 1, 1 << 31, 1 << 32, 1<<32 + 5, 1 << 40, 1 << 62, 1 << 63, 1<<64 - 1, 1<<63 + 4, 1 << 35}
+var hostileLens = []uint64{1<<31 - 1, 1 << 31, 1 << 32, 1<<32 + 5, 1 << 40, 1 << 62, 1 << 63, 1<<64 - 1, 1<<63 + 4, 1 << 35,
+	// just below 2^63 (cursor + length wraps a signed int), also aligned to the element sizes of the packed fixed kinds
+	1<<63 - 1, 1<<63 - 2, 1<<63 - 4, 1<<63 - 8, 1<<63 - 9, 1<<63 - 12, 1<<63 - 16, 1<<63 - 24, 1<<63 - 64, 1<<63 - 128,
+	1<<31 - 8, 1<<31 - 4, 1<<32 - 8, 1<<32 - 4, 1<<62 + 8}
 
 func genMutated(t *rapid.T) []byte {
 	fs := wiregen.Fields(2, 6).Draw(t, "fields")
